@@ -1,8 +1,11 @@
 #!/usr/bin/env python3-vt
-import json, glob, sys, jsonschema
+import json, sys, os, jsonschema
 V="/verif"
-jsonschema.validate(json.load(open(V+'/MANIFEST.json')), json.load(open('/root/.vp/MANIFEST.schema.json')))
+man=json.load(open(V+'/MANIFEST.json'))
+jsonschema.validate(man, json.load(open('/root/.vp/MANIFEST.schema.json')))
 es=json.load(open('/root/.vp/EVIDENCE.schema.json'))
-for f in sorted(glob.glob(V+'/evidence/*.json')):
-    jsonschema.validate(json.load(open(f)), es)
-print('manifest + %d evidence files valid' % len(glob.glob(V+'/evidence/*.json')))
+n=0
+for c in man['checks']:
+    f=os.path.join(V,c['evidence_file'])
+    jsonschema.validate(json.load(open(f)), es); n+=1
+print('manifest + %d evidence files valid' % n)
